@@ -34,7 +34,8 @@ NamedAtoms == {Plain(n, ValOf(k, n)) : n \in Names, k \in ValueKinds}
               \cup {Plain(n, ValOf(k, n)) : n \in {"foo", "style", "class"}, k \in ExtraKinds}
               \cup {NsAttr("xlink", "href", ValOf(k, "href")) : k \in {"str", "dyn"}}
               \cup {NsAttr("onUpdate", "modelValue", ValOf(k, "onClick")) : k \in {"dyn"}}
-Specials == {Spread(Ident("sp1", FALSE, Obj(<< <<"id", Num(1)>> >>))),
+SpreadLit == Spread(ObjLit(<< <<"b", Ident("dz", FALSE, Bool(TRUE))>>, <<"title", Lit(S(<<116>>))>> >>))     \* {...{ b: dz, title: "t" }}
+Specials == {Spread(Ident("sp1", FALSE, Obj(<< <<"id", Num(1)>> >>))), SpreadLit,
              VModel(Ident("m1", TRUE, S(<<49>>)), "computed2", "", Ident("an", FALSE, StrS(<<100, 121, 110>>, "dyn")), "none", <<>>),
              VModel(Ident("m2", TRUE, S(<<50>>)), "none", "", Undefined, "none", <<>>),
              VModel(Ident("m3", TRUE, S(<<51>>)), "colon", "title", Undefined, "suffix", <<"trim">>),
@@ -54,8 +55,14 @@ AttrSeqs == {as \in SeqsUpTo(Atoms, MaxAttrs) : NoRepeat(as)}
 Hosts == {TagHtml("div"), TagComp("Foo", TRUE, Opq("vFoo"))} \cup (IF WithInput THEN {TagHtml("input")} ELSE {})
 Opt(ton, opt) == [DefaultOpts EXCEPT !.transformOn = ton, !.optimize = opt]
 
+Spreads == {a \in Specials : a.k = "spread"}
+SpreadSeqs == {x \in {<<sp>> : sp \in Spreads} \cup {<<sp, a>> : sp \in Spreads, a \in Atoms} \cup {<<a, sp>> : sp \in Spreads, a \in Atoms} : NoRepeat(x)}
 AttrCases == {[kind |-> "attrs", elem |-> Elem(h, as, <<>>), opts |-> Opt(ton, TRUE)] :
                 h \in Hosts, as \in AttrSeqs, ton \in BOOLEAN}
+(* with mergeProps off a spread of an object literal is inlined into the props object: still "spread" *)
+(* (kept apart from AttrCases: a union of two large sets of deep records is slow to normalise in TLC)    *)
+SpreadOffCases == {[kind |-> "attrs", elem |-> Elem(h, as, <<>>), opts |-> [Opt(ton, TRUE) EXCEPT !.mergeProps = FALSE]] :
+                     h \in Hosts, ton \in BOOLEAN, as \in SpreadSeqs}
 
 (* nested component trees: children drawn from bound/unbound identifiers, text, elements, components *)
 RECURSIVE Trees(_)
